@@ -119,11 +119,12 @@ WriteOrder(w) == [j \in 1..Len(w) |-> [f |-> w[j].f, i |-> w[j].i, app |-> w[j].
 
 CreatedIds(c) == { c[j].id : j \in 1..Len(c) }
 
-CoreClauses(st, rm, d, S, post, o0, o1) ==
+(* clauses that read only the pre-state files, the request and the public   *)
+(* observations: evaluated even when the post-state files are broken        *)
+ObsClauses(st, rm, d, S, post, o0, o1) ==
   LET A0   == AbsPre(o0, st)
       R    == AbsStep(A0, st, rm, d, S)
       P    == ImplStep(st, rm, d, S)
-      tot  == SumW(OutT(o1))
   IN FailNames(<<
       \* ---- exact conformance with the block machine (drift, not a verdict) ----
       <<"bind.exc",    P.exc = S.exc>>,
@@ -134,18 +135,12 @@ CoreClauses(st, rm, d, S, post, o0, o1) ==
       <<"bind.wlog",   P.st.wlog = WriteOrder(S.w)>>,
       <<"bind.refine", R.exc = P.exc /\ R.created = P.created /\ R.pages = P.pages
                        /\ R.A.pages = PagesOf(P.st.trie) /\ R.A.we = WeOfBlocks(P.st.trie)>>,
-      \* ---- the decoded files and the public enumerations tell the same story ----
-      <<"bind.obs.pages", PagesOf(post.trie) = PSet(o1) /\ CrawledOf(post.trie) = CSet(o1)>>,
-      <<"bind.obs.we",    WeOfBlocks(post.trie) = WSet(o1)>>,
-      <<"bind.obs.links", OutLinksOf(post.trie, post.ls) = OutT(o1)>>,
       \* ---- C01 page set fidelity ----
       <<"C01.pages",   R.A.pages = PSet(o1)>>,
       <<"C01.nodup",   Len(o1.pages) = Cardinality(PSet(o1))>>,
       <<"C01.crawled", R.A.crawled = CSet(o1)>>,
       <<"C01.counts",  o1.npages = Cardinality(PSet(o1)) /\ o1.ncrawled = Cardinality(CSet(o1))>>,
       <<"C01.report",  R.pages = S.pages>>,
-      \* ---- C02 findability (file side; lookup clauses are in the query section) ----
-      <<"C02.known",   R.A.known = KnownOf(post.trie)>>,
       \* ---- C03 link multigraph ----
       <<"C03.out",     R.A.links = OutT(o1)>>,
       <<"C03.in",      { e \in R.A.links : e[1] # e[2] } = InT(o1)>>,
@@ -153,7 +148,6 @@ CoreClauses(st, rm, d, S, post, o0, o1) ==
                        /\ Cardinality(BagPairs(OutT(o1))) = Cardinality(OutT(o1))
                        /\ Cardinality(BagPairs(InT(o1))) = Cardinality(InT(o1))>>,
       <<"C03.count",   o1.nlinks = SumW(R.A.links)>>,
-      <<"C03.files",   InLinksOf(post.trie, post.ls) = OutLinksOf(post.trie, post.ls)>>,
       \* ---- C04 resolution: net effect of the edit on the prefix -> webentity map ----
       <<"C04.edit",    R.A.we = WSet(o1)>>,
       <<"C04.refuse",  (R.exc = "TraphException") = (S.exc = "TraphException")>>,
@@ -168,17 +162,32 @@ CoreClauses(st, rm, d, S, post, o0, o1) ==
       <<"C12.header",  post.lastId = R.A.lastId>>,
       <<"C12.shared",  \A j \in 1..Len(S.created) :
                           \A p \in SeqToSet(S.created[j].prefixes) : <<p, S.created[j].id>> \in WSet(o1)>>,
-      \* ---- C19 storage accounting ----
+      \* ---- C19 storage accounting (lengths only) ----
       <<"C19.trie",    Len(post.trie) = SumBlocks(R.A.known)>>,
       <<"C19.links",   Len(post.ls) = 2 * SumW(R.A.links)>>,
       <<"C19.len",     o1.lenT = 128 * (Len(post.trie) + 1) /\ o1.lenL = 16 * (Len(post.ls) + 1)>>,
       <<"C19.readd",   (~S.reset /\ R.A.known = A0.known) => Len(post.trie) = Len(st.trie)>>
      >>)
 
+(* clauses that interpret the post-state files: need TstInv(post) *)
+FileClauses(st, rm, d, S, post, o0, o1) ==
+  LET A0   == AbsPre(o0, st)
+      R    == AbsStep(A0, st, rm, d, S)
+  IN FailNames(<<
+      \* ---- the decoded files and the public enumerations tell the same story ----
+      <<"bind.obs.pages", PagesOf(post.trie) = PSet(o1) /\ CrawledOf(post.trie) = CSet(o1)>>,
+      <<"bind.obs.we",    WeOfBlocks(post.trie) = WSet(o1)>>,
+      <<"bind.obs.links", OutLinksOf(post.trie, post.ls) = OutT(o1)>>,
+      <<"C02.known",   R.A.known = KnownOf(post.trie)>>,
+      <<"C03.files",   InLinksOf(post.trie, post.ls) = OutLinksOf(post.trie, post.ls)>>
+     >>)
+
 StepClauses(st, rm, d, S, post, o0) ==
   LET inv == TstInvFailure(post.trie, post.ls) IN
-  IF inv # "" THEN [names |-> <<"C02.inv." \o inv>>, dead |-> TRUE]
-  ELSE [names |-> CoreClauses(st, rm, d, S, post, o0, S.obs)
+  IF inv # ""
+  THEN [names |-> <<"C02.inv." \o inv>> \o ObsClauses(st, rm, d, S, post, o0, S.obs), dead |-> TRUE]
+  ELSE [names |-> ObsClauses(st, rm, d, S, post, o0, S.obs)
+                  \o FileClauses(st, rm, d, S, post, o0, S.obs)
                   \o QueryClauses(post, NewRam(rm, S), NewDef(d, S), S),
         dead |-> FALSE]
 
